@@ -1144,9 +1144,10 @@ class Interp:
                 "removeprefix", "removesuffix", "partition", "rpartition"):
             def smeth(a, k, n, o=o, name=name):
                 if all(isinstance(x, (str, int, tuple)) for x in a) and \
-                        not k:
+                        all(isinstance(x, (str, int, tuple))
+                            for x in k.values()):
                     try:
-                        return getattr(o, name)(*a)
+                        return getattr(o, name)(*a, **k)
                     except (TypeError, ValueError):
                         raise Raised(f"str.{name}")
                 raise Unsupported(f"str.{name} with non-literal arguments",
@@ -1295,6 +1296,8 @@ class Interp:
             return self.external(f.name, args, kwargs, node)
         if isinstance(f, PyFunc):
             return f.fn(args, kwargs, node)
+        if hasattr(f, "skv_call"):
+            return f.skv_call(args, kwargs, node)
         if isinstance(f, Builtin):
             return self.builtin(f, args, kwargs, node)
         if isinstance(f, ClassRef):
